@@ -450,7 +450,7 @@ var c32Preamble = "arr=(a b c d); declare -A m=([k]=v [j]=w); s=str; n=0; sp=([3
 
 func c32Body(r *Rand, depth int) string { return c32BodyC(r, depth, true) }
 
-// c32BodyC: with conc=false no goroutine is started (used inside $( ), see the exclusion below).
+// c32BodyC: with conc=false no goroutine is started.
 func c32BodyC(r *Rand, depth int, conc bool) string {
 	pick := func(l ...string) string { return l[r.Intn(len(l))] }
 	var parts []string
@@ -496,10 +496,7 @@ func c32BodyC(r *Rand, depth int, conc bool) string {
 			case 1:
 				parts = append(parts, c32Simple(r)+" | { "+c32Body(r, depth+1)+"\n}")
 			case 2:
-				// a background job inside $( ) writes the substitution's strings.Builder concurrently
-				// with the substitution's own shell (known finding C32-cmdsubst-output, replayed from
-				// the corpus): inside $( ) no goroutine is started
-				parts = append(parts, "x=$( "+c32BodyC(r, depth+1, false)+"\n)")
+				parts = append(parts, "x=$( "+c32Body(r, depth+1)+"\n)")
 			case 3:
 				parts = append(parts, "while read -r l; do "+c32Body(r, depth+1)+"\ndone < <( "+c32Body(r, depth+1)+"\n)")
 			case 4:
@@ -563,7 +560,7 @@ func c32GenJob(r *Rand, id int) c32Job {
 		case 4:
 			stmts = append(stmts, "while read -r l; do "+c32Body(r, 1)+"\ndone < <( "+c32Body(r, 0)+"\n)")
 		case 5:
-			stmts = append(stmts, "y=$( "+c32BodyC(r, 0, false)+"\n)\n"+c32Body(r, 1))
+			stmts = append(stmts, "y=$( "+c32Body(r, 0)+"\n)\n"+c32Body(r, 1))
 		case 6:
 			stmts = append(stmts, "cat <(echo kept) >/dev/null; echo x 2>/dev/null")
 		default:
